@@ -12,6 +12,94 @@ func init() {
 	verifRegister("VerifC10", VerifC10)
 	verifRegister("VerifC10Units", VerifC10Units)
 	verifRegister("VerifC10Exists", VerifC10Exists)
+	verifRegister("VerifC10Reuse", VerifC10Reuse)
+}
+
+// c10MatchBlocks: the written lines (one Write per line) are the blocks' lines, blocks in any order, each whole.
+func c10MatchBlocks(chunks []string, blocks [][]string) bool {
+	used := make([]bool, len(blocks))
+	pos := 0
+	for pos < len(chunks) {
+		found := false
+		for i, b := range blocks {
+			if used[i] || pos+len(b) > len(chunks) {
+				continue
+			}
+			same := true
+			for k := range b {
+				if chunks[pos+k] != b[k] {
+					same = false
+					break
+				}
+			}
+			if same {
+				used[i], found = true, true
+				pos += len(b)
+				break
+			}
+		}
+		if !found {
+			return false
+		}
+	}
+	for _, u := range used {
+		if !u {
+			return false
+		}
+	}
+	return true
+}
+
+func c10BlockLines(nodes []vNode, i int, out *[]string) {
+	if nodes[i].parent < 0 {
+		*out = append(*out, nodes[i].name+"\n")
+	} else {
+		*out = append(*out, specBranch(nodes, i, dLD, dLI, dMD, dMI)+" "+nodes[i].name+"\n")
+	}
+	for _, c := range nodes[i].children {
+		c10BlockLines(nodes, c, out)
+	}
+}
+
+// VerifC10Reuse: the channel hand-over gives blocks to the ten workers of a stage in turn, so state that a worker
+// keeps from one block to the next only matters from the 11th block on. Ten concrete three-level filler roots are
+// followed by a symbolic tail document of n rows (same family as VerifC10, list-style roots): same accept/reject
+// decision in both modes, and the massive text output consists of the same whole blocks.
+func VerifC10Reuse() {
+	n := verifN()
+	var rows []string
+	var lines []vLine
+	for i := 0; i < 10; i++ {
+		f := "f" + string(rune('0'+i))
+		rows = append(rows, "- "+f, "  - g", "    - h")
+		lines = append(lines, vLine{0, f}, vLine{1, "g"}, vLine{2, "h"})
+	}
+	doc := c10Document(n, func(l string) string {
+		nm := verifName(l)
+		verifAssume(!strings.HasPrefix(nm, "f"))
+		return nm
+	}, true, 2)
+	verifAssume(!doc.sharp)
+	rows = append(rows, doc.rows...)
+	lines = append(lines, doc.lines...)
+	w1, w2 := newVerifWriter(), newVerifWriter()
+	verifContext("C10.reuse")
+	e1 := OutputFromMarkdown(w1, &verifReader{lines: rows})
+	e2 := OutputFromMarkdown(w2, &verifReader{lines: rows}, WithMassive(context.Background()))
+	verifAssert((e1 != nil) == doc.bad, "C10.reuse.simple")
+	verifAssert((e1 == nil) == (e2 == nil), "C10.reuse.err")
+	if e1 == nil && e2 == nil {
+		nodes, roots := specForest(lines)
+		var blocks [][]string
+		for _, r := range roots {
+			var b []string
+			c10BlockLines(nodes, r, &b)
+			blocks = append(blocks, b)
+		}
+		verifAssert(c10MatchBlocks(w2.chunks, blocks), "C10.reuse.same")
+	}
+	verifAssert(verifQuiesce() == 0, "C10.noleak")
+	verifReach("C10.reuse.end")
 }
 
 type c10Doc struct {
@@ -26,7 +114,7 @@ type c10Doc struct {
 // (whole document), children indented by two spaces, optionally one blank / whitespace-only row (leading or
 // inner) and optionally one malformed row (no bullet / empty text / a row nested two levels too deep).
 // Rows carry their notation bytes as a literal prefix because the splitter looks at the first byte.
-func c10Document(n int, name func(string) string, allowBad bool) *c10Doc {
+func c10Document(n int, name func(string) string, allowBad bool, prev0 int) *c10Doc {
 	d := &c10Doc{}
 	d.sharp = verifFlag("sharp")
 	blankAt := int(verifChoose("blankAt", 0, uint(n))) // n: none
@@ -34,7 +122,7 @@ func c10Document(n int, name func(string) string, allowBad bool) *c10Doc {
 	if allowBad {
 		badAt = int(verifChoose("badAt", 0, uint(n)))
 	}
-	prev := -1
+	prev := prev0 // depth of the item row before the document (-1: none)
 	ind := func(k int) string { return c10Rep("  ", k) }
 	for i := 0; i < n; i++ {
 		if i == blankAt {
@@ -101,7 +189,7 @@ func c10Rep(c string, n int) string {
 // a root; mkdir: same file-system state; verify: same verdict).
 func VerifC10() {
 	n := verifN()
-	doc := c10Document(n, verifName, true)
+	doc := c10Document(n, verifName, true, -1)
 	mode := verifChoose("mode", 0, 5)
 	nodes, roots := []vNode(nil), []int(nil)
 	if !doc.bad {
